@@ -197,6 +197,21 @@ def run(tier: str) -> int:
         L.add('C11_price_lc', 'equal', LC, rungs, {'relation': 'prices + delta', 'base': tag})
         L.add('C11_price_npv', 'same_direction', lambda r_: r_['out']['npv'], rungs, {'relation': 'prices + delta', 'base': tag},
               precondition=sold_energy_positive)
+        # --- the price of ONE product that is sold, the others as they are (three rungs: the relation between two products' prices changes
+        #     along the ladder, the direction of the value measures must not)
+        eu_, pt_ = int(p.get('End-Use Option', 1)), int(p.get('Power Plant Type', 1))
+        sold = ['Electricity'] if eu_ == 1 else (['Cooling'] if pt_ == 5 else ['Heat']) if eu_ == 2 else ['Electricity', 'Heat']
+        prod = rng.choice(sold)
+        rungs1 = []
+        for m_ in (0, 1, 3):
+            one = dict(p)
+            one[f'Starting {prod} Sale Price'] = repr(float(p[f'Starting {prod} Sale Price']) + m_ * d)
+            one[f'Ending {prod} Sale Price'] = repr(float(p[f'Ending {prod} Sale Price']) + m_ * d)
+            rungs1.append((m_ * d, gen.to_text(one)))
+        L.add('C11_price_lc', 'equal', LC, rungs1, {'relation': f'{prod} price + delta (one product)', 'base': tag})
+        key1 = {'Electricity': 'elec', 'Heat': 'heat', 'Cooling': 'cool'}[prod]
+        L.add('C11_price_npv', 'same_direction', lambda r_: r_['out']['npv'], rungs1, {'relation': f'{prod} price + delta (one product)', 'base': tag},
+              precondition=lambda r_, k_=key1: sold_energy_positive(r_) and bool(r_['energy'].get(k_)) and any(x > 0 for x in r_['energy'][k_]))
         # --- nulls: add-on with zero cost and zero gains, zero-rate tax credit, zero grant
         if int(p['Construction Years']) == 1:
             nul = dict(p)
